@@ -105,7 +105,7 @@ static jv *cur_keys;
 static int keep_going;   /* fault-anywhere sweep: do not compare, never stop; only the final bookkeeping is judged */
 static int in_conc;
 static jv *soft_div;      /* an allocation-count-only difference seen earlier in this script */
-static int soft_offset;
+static int soft_offset, soft_offset_fd;
 static jv *trace;  /* array of observed records when --trace */
 
 static void diverge(const char *kind, const char *key, jv *exp, jv *obs)
@@ -378,7 +378,7 @@ static jv *obs_key(const char *key, jv *call, long r, jv *extra)
   if (!strcmp(key, "t")) return j_mkint(K->now);
   if (!strcmp(key, "dt")) return j_mkint(K->now - t_call);
   if (!strcmp(key, "blk")) return j_mkint(K->blocks > 0);
-  if (!strcmp(key, "nfd")) return j_mkint(sk_nfds(0));
+  if (!strcmp(key, "nfd")) return j_mkint(sk_nfds(0) - soft_offset_fd);
   if (!strcmp(key, "nalloc")) return j_mkint(sk_nalloc() - soft_offset);
   if (!strcmp(key, "st")) return child_states();
   if (!strcmp(key, "bad")) return j_mkint(rbad);
@@ -1200,17 +1200,53 @@ static void run_script(jv *s)
           /* all keys of one return are one simultaneous observation: report every differing key */
           jv *o = obs_all(st, r, extra);
           for (int i = 0; i < badkeys->n; i++) j_put(o, badkeys->a[i]->s, obs_key(badkeys->a[i]->s, st, r, extra));
-          if (badkeys->n == 1 && !strcmp(badkeys->a[0]->s, "nalloc") && !soft_div) {
-            /* a difference in the allocation count alone does not change what the code does next: remember it
-               and keep checking the rest of the script (reported at the end, or together with a later divergence) */
+          int only_counts = 1;
+          for (int i = 0; i < badkeys->n; i++) if (strcmp(badkeys->a[i]->s, "nalloc") && strcmp(badkeys->a[i]->s, "nfd")) only_counts = 0;
+          if (only_counts && !soft_div) {
+            /* a difference in the allocation / descriptor count alone: remember it, compensate for it and keep checking
+               the rest of the script - what the calls made next return says which promise is broken (reported at the
+               end, or together with the next divergence) */
             soft_div = j_mkobj();
             j_put(soft_div, "step", j_mkint(pos)); j_put(soft_div, "call", st); j_put(soft_div, "exp", firstexp); j_put(soft_div, "obs", o);
-            soft_offset += (int) (j_get(o, "nalloc")->i - j_get(firstexp, "nalloc")->i);
+            j_put(soft_div, "keys", badkeys);
+            if (j_get(firstexp, "nalloc")) soft_offset += (int) (j_get(o, "nalloc")->i - j_get(firstexp, "nalloc")->i);
+            if (j_get(firstexp, "nfd")) soft_offset_fd += (int) (j_get(o, "nfd")->i - j_get(firstexp, "nfd")->i);
           } else {
             cur_keys = badkeys;
             diverge("mismatch", badkeys->a[0]->s, firstexp, o);
           }
         }
+      }
+      continue;
+    }
+    if (!strcmp(e, "probe")) {
+      /* After the last call of a script: a zero-timeout poll for everything on every started handle.  It changes
+         nothing and its answer is a function of the model state, so it exposes damage that a call whose contract says
+         "nothing changes" (a timed-out or interrupted wait, a rejected call) did to the handle all the same. */
+      pos++;
+      if (keep_going || opt_cxx) continue;
+      jv *src = j_get(st, "src");
+      int n = src ? src->n : 0;
+      reproc_event_source *es = calloc((size_t) n + 1, sizeof *es);
+      for (int i = 0; i < n; i++) {
+        int sh = (int) src->a[i]->a[0]->i;
+        es[i].process = sh > 0 && sh < MAXH ? H[sh] : NULL;
+        es[i].interests = (int) src->a[i]->a[1]->i;
+        es[i].events = 0;
+      }
+      int fd0 = sk_nfds(0), al0 = sk_nalloc();
+      K->in_api = 1; long pr = reproc_poll(es, (size_t) n, 0); K->in_api = 0;
+      jv *got = j_mkarr(); j_push(got, j_mkint(pr));
+      for (int i = 0; i < n; i++) j_push(got, j_mkint(pr >= 0 ? es[i].events : 0));
+      j_push(got, j_mkint(sk_nfds(0) - fd0)); j_push(got, j_mkint(sk_nalloc() - al0));
+      free(es);
+      jv *alts = j_get(st, "exp"); int ok = 0;
+      for (int i = 0; alts && i < alts->n; i++) if (j_eq(alts->a[i], got)) ok = 1;
+      if (!ok) {
+        jv *o = j_mkobj(); j_put(o, "probe", got);
+        jv *x = j_mkobj(); j_put(x, "probe", alts);
+        cur_keys = j_mkarr(); j_push(cur_keys, j_mkstr("probe"));
+        diverge("mismatch", "probe", x, o);
       }
       continue;
     }
@@ -1239,10 +1275,10 @@ static void run_script(jv *s)
   }
   if (keep_going) finish_keepgoing(0);
   if (soft_div) {
-    cur_call = j_get(soft_div, "call"); cur_keys = j_mkarr(); j_push(cur_keys, j_mkstr("nalloc"));
+    cur_call = j_get(soft_div, "call"); cur_keys = j_get(soft_div, "keys");
     jv *sd = soft_div; soft_div = NULL;
     pos = (int) j_get(sd, "step")->i;
-    diverge("mismatch", "nalloc", j_get(sd, "exp"), j_get(sd, "obs"));
+    diverge("mismatch", cur_keys->a[0]->s, j_get(sd, "exp"), j_get(sd, "obs"));
   }
   jv *v = verdict_base(1);
   j_put(v, "calls", j_mkint(ncalls));
@@ -1333,7 +1369,7 @@ static void run_line(char *line, int idx)
 {
   const char *err;
   j_reset();
-  trace = NULL; cur_call = NULL; cur_keys = NULL; soft_div = NULL; soft_offset = 0; in_conc = 0;
+  trace = NULL; cur_call = NULL; cur_keys = NULL; soft_div = NULL; soft_offset = 0; soft_offset_fd = 0; in_conc = 0;
   if (!strncmp(line, "<<\"BEH\", \"", 10)) {
     /* TLC PrintT of <<"BEH", ToJson(hist)>>: a TLA+ string literal; undo its escaping in place */
     char *o = line, *q = line + 10;
